@@ -176,7 +176,7 @@ def coq_eval(imports, terms, workdir, tag, timeout=300, shard=250):
 
 # ----------------------------------------------------------------------------- Coq build
 class BuildResult:
-    def __init__(self): self.ok = True; self.log = ""; self.failed = None; self.cone = []; self.obligations = 0; self.assumptions = []; self.axioms = []; self.theorems = []; self.gen_changed = []; self.coqchk = None
+    def __init__(self): self.model_ok = False; self.ok = True; self.log = ""; self.failed = None; self.cone = []; self.obligations = 0; self.assumptions = []; self.axioms = []; self.theorems = []; self.gen_changed = []; self.coqchk = None
 
 def coq_project_files():
     fs = []
@@ -308,7 +308,13 @@ def build(prop, tier):
                 br.failed = "proof obligation no longer checks: %s" % (("%s line %s" % (m.group(1), m.group(2))) if m else "make failed")
                 m2 = re.search(r'(Error:.*?)(?:\n\n|\Z)', out, flags=re.S)
                 if m2: br.failed += " — " + " ".join(m2.group(1).split())[:300]
+                # the proofs broke; the executable model may still build, so that the correspondence run can look for a failing input
+                mods = [m[len("Verif."):].replace(".", "/") + ".vo" for m in prop.model_imports if m.startswith("Verif.")]
+                if mods:
+                    rc2, _ = run(["timeout", "900", "make", "-j%d" % NPROC] + mods, 1000, cwd=COQ)
+                    br.model_ok = (rc2 == 0)
                 return br
+        br.model_ok = True
         rc, out = run(["timeout", "600", "coqc"] + COQC_FLAGS + [prop.coq_props], 700, cwd=COQ)
         br.log += out[-6000:]
         if rc != 0:
@@ -423,7 +429,7 @@ def run_check(prop, tier, seed):
     results = [safe_impl(prop, s, i) for s, i in cases]
     # model side
     idx, terms = [], []
-    if br.ok:
+    if br.ok or br.model_ok:
         for k, (s, i) in enumerate(cases):
             t = prop.model(s, i)
             if t is not None: idx.append(k); terms.append(t)
